@@ -14,5 +14,6 @@ INVARIANT ThmBoth
 INVARIANT ThmNextPrevInverse
 INVARIANT ThmChildInverse
 INVARIANT ThmStepLocal
+INVARIANT ThmStepViaSeq
 INVARIANT ThmPath
 CHECK_DEADLOCK FALSE
